@@ -1,6 +1,7 @@
 package rules
 
 import (
+	"sort"
 	"fmt"
 	"go/token"
 	"go/types"
@@ -58,6 +59,52 @@ var callbackClasses = map[string]string{
 	"func(int) reflect.Type":                  "positional type getter handed to the lifter by NewFunc (reflect.Type.In/Out)",
 }
 
+// resolvedFuncParam: v is a function-typed parameter of a private helper and every call site passes a statically known
+// in-module function (literal, closure, method expression or bound method); returns those functions.
+func (c *Ctx) resolvedFuncParam(v ssa.Value) []*ssa.Function {
+	p := c.P
+	prm, ok := v.(*ssa.Parameter)
+	if !ok || !p.PrivateHelper(prm.Parent()) {
+		return nil
+	}
+	idx := -1
+	for i, q := range prm.Parent().Params {
+		if q == prm {
+			idx = i
+		}
+	}
+	var out []*ssa.Function
+	for _, site := range p.Callers(prm.Parent()) {
+		if idx < 0 || idx >= len(site.Common().Args) {
+			return nil
+		}
+		var fn *ssa.Function
+		switch x := site.Common().Args[idx].(type) {
+		case *ssa.Function:
+			fn = x
+		case *ssa.MakeClosure:
+			fn, _ = x.Fn.(*ssa.Function)
+		}
+		if fn == nil {
+			return nil
+		}
+		// synthetic thunks/bound-method wrappers of module methods count as the method itself
+		root := fn
+		if fn.Synthetic != "" {
+			for _, ci := range core.Calls(fn) {
+				if cal := ci.Common().StaticCallee(); cal != nil {
+					root = cal
+				}
+			}
+		}
+		if !p.InTarget(root) {
+			return nil
+		}
+		out = append(out, root)
+	}
+	return out
+}
+
 func runExec(c *Ctx) {
 	p := c.P
 	exec := c.role("EXEC-X1", "executor")
@@ -97,6 +144,19 @@ func runExec(c *Ctx) {
 			}
 			t := core.TypeStr(cc.Value.Type())
 			cls, ok := callbackClasses[t]
+			if !ok {
+				// a function-valued parameter of a private helper: resolved when every call site hands in a function
+				// literal or method of this module (an internal strategy parameter, not a user callback)
+				if fns := c.resolvedFuncParam(cc.Value); len(fns) > 0 {
+					ok = true
+					var names []string
+					for _, fn := range fns {
+						names = append(names, core.FuncName(fn))
+					}
+					sort.Strings(names)
+					cls = "internal strategy parameter, resolved to " + strings.Join(names, ", ")
+				}
+			}
 			c.R.Func(core.FuncName(f))
 			c.R.Add("EXEC-X1", core.FuncName(f)+"|dynamic call of "+t, core.FuncName(f), p.InstrPos(ci), ok,
 				"dynamic calls of function values are limited to the listed callback classes (none of them is a wrapped target or converter)",
